@@ -398,6 +398,36 @@ def emit_fixed(g, mod, py, prefix, want):
     g.item(py, f'prysm/propagation.py:{py}', lambda: get_def(mod, py), build, '\n'.join(fb))
 
 
+def fact3(g, name, source, node_fn, check):
+    """three-valued structural fact: check() -> True / False when the code has the recognised shape (False = recognised and
+    wrong, the theorem about it then fails), or raises Untranslatable when the shape is not recognised at all: then the fact
+    is emitted as `true`, the item is recorded as untranslatable and the (widened) correspondence carries the claim"""
+    def build():
+        return f'def {name} : Bool := {"true" if check() else "false"}'
+    g.item(name, source, node_fn, build, f'def {name} : Bool := true')
+
+
+def shifted_ortho_transform(fn):
+    """`fftshift(T(ifftshift(X), norm=...))` returned by fn (directly or through one local name) -> (T, norm, outer, inner, X)"""
+    rets = [r.value for r in ast.walk(fn) if isinstance(r, ast.Return) and r.value is not None]
+    if len(rets) != 1:
+        raise Untranslatable('not exactly one return')
+    e = rets[0]
+    if isinstance(e, ast.Name):
+        vals = [st.value for st in fn.body if isinstance(st, ast.Assign) and len(st.targets) == 1
+                and isinstance(st.targets[0], ast.Name) and st.targets[0].id == e.id]
+        if len(vals) != 1:
+            raise Untranslatable('returned name is not bound exactly once')
+        e = vals[0]
+    if not (isinstance(e, ast.Call) and len(e.args) == 1 and isinstance(e.args[0], ast.Call)):
+        raise Untranslatable('return value is not shift(transform(...))')
+    t = e.args[0]
+    if not (t.args and isinstance(t.args[0], ast.Call) and len(t.args[0].args) == 1):
+        raise Untranslatable('transform argument is not shift(x)')
+    norm = {k.arg: ast.unparse(k.value) for k in t.keywords}.get('norm')
+    return ast.unparse(t.func), norm, ast.unparse(e.func), ast.unparse(t.args[0].func), t.args[0].args[0]
+
+
 def generate(repo):
     g = Gen('C03', imports=['PrysmVerif.Num', 'PrysmVerif.Model.C03'], header=HEADER)
     pr, _ = load(repo, 'prysm/propagation.py')
@@ -445,15 +475,17 @@ def generate(repo):
     def fft_route(py, call):
         def check():
             fn = get_def(pr, py)
-            rets = [ast.unparse(r.value) for r in ast.walk(fn) if isinstance(r, ast.Return)]
-            pads = [ast.unparse(c) for c in find_calls(fn, 'pad2d')]
-            expect = f"fft.fftshift(fft.{call}(fft.ifftshift(padded_wavefront), norm='ortho'))"
-            ok_ret = rets == [expect] or (rets == ['impulse_response'] and any(
-                isinstance(st, ast.Assign) and ast.unparse(st.value) == expect for st in fn.body))
-            return ok_ret and pads == ['pad2d(wavefunction, Q)']
+            T, norm, outer, inner, x = shifted_ortho_transform(fn)
+            if not isinstance(x, ast.Name):
+                raise Untranslatable('transformed array is not a local name')
+            binds = [ast.unparse(st.value) for st in ast.walk(fn) if isinstance(st, ast.Assign) and len(st.targets) == 1
+                     and isinstance(st.targets[0], ast.Name) and st.targets[0].id == x.id]
+            arg = fn.args.args[0].arg
+            pads_ok = sorted(binds) == sorted([f'pad2d({arg}, Q)', arg])
+            return (T == f'fft.{call}' and norm == "'ortho'" and outer == 'fft.fftshift' and inner == 'fft.ifftshift' and pads_ok)
         return check
-    g.fact('focusIsShiftedOrthoFft2OfPad', 'prysm/propagation.py:focus', fft_route('focus', 'fft2'))
-    g.fact('unfocusIsShiftedOrthoIfft2OfPad', 'prysm/propagation.py:unfocus', fft_route('unfocus', 'ifft2'))
+    fact3(g, 'focusIsShiftedOrthoFft2OfPad', 'prysm/propagation.py:focus', lambda: get_def(pr, 'focus'), fft_route('focus', 'fft2'))
+    fact3(g, 'unfocusIsShiftedOrthoIfft2OfPad', 'prysm/propagation.py:unfocus', lambda: get_def(pr, 'unfocus'), fft_route('unfocus', 'ifft2'))
 
     # ---- Wavefront.focus_fixed_sampling / unfocus_fixed_sampling: which attribute feeds which argument
     def wrapper(meth):
